@@ -9,10 +9,12 @@ PROP = {
         "C18-1 RPC leaf conversions SegmentHopField, HopEntry, PeerEntry, SegmentInfo: try_from_rpc total (no panic) on every message; "
         "Ok <=> every field in range of its target type and sub-messages present (out-of-range => Err, no silent narrowing); "
         "try_from_rpc(m) == Ok(x) => into_rpc(x) == m; try_from_rpc(into_rpc(x)) == Ok(x)",
-        "C18-2 AsEntry::associated_data for the entry at index k of a signed segment yields exactly info.encoded || (hdr_body_0 || sig_0) || ... "
-        "|| (hdr_body_{k-1} || sig_{k-1}) and reports its length (<= 3 entries, <= 2-byte blobs, duplicated entry values included)",
     ],
     "not_decided": [
+        "C18-2 `AsEntry::associated_data` yields exactly `info.encoded || (hdr_body_0 || sig_0) || ... || (hdr_body_{k-1} || sig_{k-1})` for the entry at "
+        "index k, and the reported length equals the sum [B(<= 3 entries, <= 2-byte blobs)]: harness c18_associated_data_prefix "
+        "(kept in /verif/kani/sciparse/c18_signed.rs, not registered) exhausted memory in CBMC (28 GB after 15 min; take_while/flat_map/chain over "
+        "Vec<Vec<u8>>). The duplicated-entry defect (prefix found by VALUE equality) is confirmed by a concrete cargo test instead: /verif/fixes/F-assoc-dup.md",
         "`SignedMessage::validate` structure: digest input = `header_and_body || associated data` in that order, key = `key_provider(header.key_id)`, "
         "result `Ok` <=> `verify` [A: ECDSA-P256/SHA-256 EUF-CMA, `p256`/`sha2`/`prost` decode are external]. The \"any bit flip is rejected\" clause is "
         "(2)+(3)+[A]; it is not proved beyond that reduction.",
@@ -56,9 +58,7 @@ PROP = {
             "hooks": [(SEG, "pub(crate) mod verif_c18_signed;")],
             "anchors": [(SEG, ["associated_data", "validate_signature", "signature"])],
             "functions": ["AsEntry::associated_data"],
-            "harnesses": [
-                H("c18_associated_data_prefix", "B", bound="3 entries, blobs <= 2 bytes", what="associated data = info || preceding signed entries; length", timeout=1500),
-            ],
+            "harnesses": [],
         },
     ],
 }
